@@ -114,7 +114,7 @@ RunFire(cfg, F, j, pv0, end) ==
                  ELSE {}
         Stale == IF dl # NoDeadline /\ Later(dl, a) /\ tf /\ ~StableUntil(cfg, a, dl)
                  THEN {<<"NoChangeBeforeNext",
-                         IF dl = Norm(a[1], nD) /\ StableUntilD(TRUE, cfg, a, dl) THEN "wildcard_start_date"
+                         IF dl \in {Norm(a[1], nD), <<a[1], nD - (nD % 100)>>} /\ StableUntilD(TRUE, cfg, a, dl) THEN "wildcard_start_date"
                          ELSE IF inp = InPeriod(cfg, dl[1]) THEN "stale_next" ELSE "effective_period_edge_missed",
                          j, a[2], n, dl[2]>>}
                  ELSE {}
